@@ -20,11 +20,14 @@ type Seed struct {
 	Len  int    `json:"len"`  // length of the seed in bytes
 	MLen int    `json:"mlen"` // mutations and truncations are applied below this offset
 	NTab int    `json:"ntab"` // whole fonts: number of tables (plan kind "drop"), else 0
-	Data []byte `json:"-"`
+	// Formats lists the alternative structures (table formats, lookup types, offset sizes ...)
+	// found in the seed by the independent walker of formats.go.
+	Formats []string `json:"formats"`
+	Data    []byte   `json:"-"`
 }
 
 // Kinds of mutation; the order is the order of the plan (spec/Decoder.tla, Kinds).
-var Kinds = []string{"orig", "trunc", "word", "flip", "ff", "drop"}
+var Kinds = []string{"orig", "trunc", "word", "flip", "ff", "inc", "dec", "drop"}
 
 // NumValues is the number of replacement value classes of kind "word".
 const NumValues = 10
@@ -62,7 +65,7 @@ type Mutant struct {
 	Seed int    `json:"seed"`
 	Kind string `json:"kind"`
 	V    int    `json:"v"`   // value class of kind "word" (1..10), else 0
-	Idx  int    `json:"idx"` // trunc: new length; word: word index; flip/ff: byte offset; drop: table index
+	Idx  int    `json:"idx"` // trunc: new length; word: word index; flip/ff/inc/dec: byte offset; drop: table index
 }
 
 // Apply returns the mutant's bytes (a fresh slice).
@@ -83,15 +86,20 @@ func Apply(s *Seed, m Mutant) ([]byte, error) {
 		out := append([]byte(nil), d...)
 		binary.BigEndian.PutUint16(out[2*m.Idx:], WordValue(m.V, len(d)))
 		return out, nil
-	case "flip", "ff":
+	case "flip", "ff", "inc", "dec":
 		if m.Idx < 0 || m.Idx >= s.MLen {
 			return nil, fmt.Errorf("byte index %d out of plan", m.Idx)
 		}
 		out := append([]byte(nil), d...)
-		if m.Kind == "flip" {
+		switch m.Kind {
+		case "flip":
 			out[m.Idx] ^= 0x80
-		} else {
+		case "ff":
 			out[m.Idx] = 0xFF
+		case "inc":
+			out[m.Idx]++ // mod 256: a count or index byte becomes "one too many"
+		case "dec":
+			out[m.Idx]--
 		}
 		return out, nil
 	case "drop":
@@ -106,7 +114,7 @@ func Count(s *Seed, kind string) int {
 	switch kind {
 	case "orig":
 		return 1
-	case "trunc", "flip", "ff":
+	case "trunc", "flip", "ff", "inc", "dec":
 		return s.MLen
 	case "word":
 		return s.MLen / 2
